@@ -478,8 +478,8 @@ struct LogBuffer : public CellBufferOptim {
 
 // ------------------------------------------------------------------------------------------------ configurations
 struct Params {
-  double eps_h, eps_x, rel_eps_f, abs_eps_f, init_loup; bool rigor, aub, xcov; int ctc, bsc, finder, buf, crit2pr, crit2, beam; bool choose_obj; uint64_t rseed; long budget;
-  string tag() const { char b[200]; snprintf(b, sizeof b, "c%d.b%d%d.f%d%s.q%d-%d-%d-%d.a%d.x%d", ctc, bsc, (int)choose_obj, finder, rigor ? "R" : "", buf, crit2pr, crit2, beam, (int)aub, (int)xcov); return b; }
+  double eps_h, eps_x, rel_eps_f, abs_eps_f, init_loup; bool rigor, aub, xcov; int ctc, bsc, finder, buf, crit2pr, crit2, beam; bool choose_obj; uint64_t rseed; long budget; bool viacfg = false, stats = false; int epsx_pat = 0;
+  string tag() const { char b[200]; snprintf(b, sizeof b, "c%d.b%d%d.f%d%s.q%d-%d-%d-%d.a%d.x%d.g%d%d%d", ctc, bsc, (int)choose_obj, finder, rigor ? "R" : "", buf, crit2pr, crit2, beam, (int)aub, (int)xcov, (int)viacfg, (int)stats, epsx_pat); return b; }
 };
 
 static Params make_params(Rng& r, const Prob& P, double eps_h) {
@@ -494,13 +494,27 @@ static Params make_params(Rng& r, const Prob& P, double eps_h) {
   q.ctc = r.below(10); q.bsc = r.below(6); q.finder = r.below(3); q.buf = r.below(4); q.choose_obj = r.coin();
   static const int PR[] = {0, 20, 50, 100}; q.crit2pr = PR[r.below(4)]; q.crit2 = r.below(8); q.beam = r.range(1, 5);
   q.rseed = r.below(1000) + 1; q.budget = -1;
+  q.viacfg = r.coin(35); q.stats = q.viacfg && r.coin(30); q.epsx_pat = r.coin(20) ? (int)r.range(1, 7) : 0;
   return q;
 }
 
 struct Result { Optimizer::Status st; double uplo, loup; IntervalVector lp; size_t nb; Result() : lp(1) {} };
 
+// the optimizer built from a configuration object (constructor Optimizer(OptimizerConfig&))
+struct HarnessConfig : public OptimizerConfig {
+  unsigned int n; Ctc& c; Bsc& b; LoupFinder& f; CellBufferOptim& q; int gv;
+  HarnessConfig(unsigned int n, Ctc& c, Bsc& b, LoupFinder& f, CellBufferOptim& q, int gv) : n(n), c(c), b(b), f(f), q(q), gv(gv) {}
+  unsigned int nb_var() { return n; }
+  Ctc& get_ctc() { return c; }
+  Bsc& get_bsc() { return b; }
+  LoupFinder& get_loup_finder() { return f; }
+  CellBufferOptim& get_cell_buffer() { return q; }
+  int goal_var() { return gv; }
+};
+
 // all the objects of one optimizer (fresh for every run)
 struct Assembly {
+  HarnessConfig* cfg = 0;
   NormalizedSystem norm; ExtendedSystem ext;
   CtcHC4* hc4; CtcHC4* hc4b; CtcAcid* acid; Ctc3BCid* cid; CtcCompo* compo; CtcIdentity* ident; Ctc* ctc;
   OptimLargestFirst* olf; Bsc* bsc; LoupFinder* inner; LoupFinderCertify* certify; LoupFinder* finder;
@@ -517,6 +531,8 @@ struct Assembly {
       default: if (q.eps_x >= 0.125 && n <= 2) { ident = new CtcIdentity(n + 1); ctc = ident; } else ctc = hc4; break;
     }
     Vector epsx(n + 1, q.eps_x);
+    // per-variable precisions: bit i of the pattern coarsens variable i (0.25), the last pattern value 7 never bisects variable 0 (+oo)
+    if (q.epsx_pat) for (int i = 0; i < n; i++) { if ((q.epsx_pat >> (i % 3)) & 1) epsx[i] = 0.25; } if (q.epsx_pat == 7 && n > 1) epsx[0] = POS_INFINITY;
     olf = new OptimLargestFirst(ext.goal_var(), q.choose_obj, epsx);
     switch (q.bsc) {
       case 0: case 1: case 2: bsc = olf; break;
@@ -533,13 +549,21 @@ struct Assembly {
       case 1: case 2: buffer = new CellDoubleHeap(ext, q.crit2pr, (CellCostFunc::criterion)q.crit2); break;
       default: h1 = new CellHeap(ext); h2 = new CellHeap(ext); buffer = new CellBeamSearch(*h1, *h2, ext, q.beam); break;
     }
-    if (logging) { lctc = new LogCtc(*ctc); lbsc = new LogBsc(*bsc, epsx); lbuf = new LogBuffer(*buffer);
-      o = new Optimizer(n, *lctc, *lbsc, *finder, *lbuf, ext.goal_var(), q.eps_x, q.rel_eps_f, q.abs_eps_f); }
-    else
-    o = new Optimizer(n, *ctc, *bsc, *finder, *buffer, ext.goal_var(), q.eps_x, q.rel_eps_f, q.abs_eps_f);
+    Ctc* uc = ctc; Bsc* ub = bsc; CellBufferOptim* uq = buffer;
+    if (logging) { lctc = new LogCtc(*ctc); lbsc = new LogBsc(*bsc, epsx); lbuf = new LogBuffer(*buffer); uc = lctc; ub = lbsc; uq = lbuf; }
+    Vector epsx_opt(n, q.eps_x); for (int i = 0; i < n; i++) epsx_opt[i] = epsx[i];
+    if (q.viacfg) {
+      cfg = new HarnessConfig(n, *uc, *ub, *finder, *uq, ext.goal_var());
+      cfg->set_rel_eps_f(q.rel_eps_f); cfg->set_abs_eps_f(q.abs_eps_f); cfg->set_eps_x(epsx_opt); cfg->set_trace(0); cfg->set_timeout(120);
+      cfg->set_extended_cov(q.xcov); cfg->set_anticipated_upper_bounding(q.aub); cfg->set_statistics(q.stats);
+      o = new Optimizer(*cfg);
+    } else {
+      o = new Optimizer(n, *uc, *ub, *finder, *uq, ext.goal_var(), q.eps_x, q.rel_eps_f, q.abs_eps_f);
+      if (q.epsx_pat) (Vector&)o->eps_x = epsx_opt;
+    }
     o->anticipated_upper_bounding = q.aub; o->extended_COV = q.xcov; o->timeout = 120; o->trace = 0;
   }
-  ~Assembly() { delete o; if (lbuf) delete lbuf; if (lbsc) delete lbsc; if (lctc) delete lctc; delete buffer; if (h1) delete h1; if (h2) delete h2; if (certify) delete certify; delete inner; if (bsc != olf) delete bsc; delete olf;
+  ~Assembly() { delete o; if (cfg) delete cfg; if (lbuf) delete lbuf; if (lbsc) delete lbsc; if (lctc) delete lctc; delete buffer; if (h1) delete h1; if (h2) delete h2; if (certify) delete certify; delete inner; if (bsc != olf) delete bsc; delete olf;
                 if (compo) delete compo; if (cid) delete cid; if (acid) delete acid; if (hc4b) delete hc4b; if (ident) delete ident; delete hc4; }
   Result result() const { Result R; R.st = o->get_status(); R.uplo = o->get_uplo(); R.loup = o->get_loup(); R.lp = o->get_loup_point(); R.nb = o->get_nb_cells(); return R; }
 };
@@ -576,7 +600,7 @@ static void run_chain(const Prob& P, const Params& q, const vector<long>& ks, co
     Assembly A(P, q);
     RNG::srand(q.rseed + s);
     verif::optimizer_cell_budget = s < ks.size() ? ks[s] : final_budget;    // (the last run is bounded too: a TIME_OUT result is still a result)
-    if (!data) A.o->optimize(P.box, q.init_loup); else A.o->optimize(*data, q.init_loup);
+    if (!data) A.o->optimize(P.box, q.init_loup); else if ((q.rseed + s) % 2) A.o->optimize(*data, q.init_loup); else A.o->optimize(file.c_str(), q.init_loup);
     verif::optimizer_cell_budget = -1;
     Result R = A.result();
     if (s == ks.size() || R.st != Optimizer::TIME_OUT) { // final (or the search finished before the budget)
